@@ -90,6 +90,8 @@ def _entry_model(it):
     'C10': 'apply must be monotone: keep the max (insert when get < counter, never when get > counter)',
     'C09': 'a stale dot must never lower a counter',
     'C11': 'GCounter/PNCounter keep the largest running total per actor through this function',
+    'C03': 'GCounter/PNCounter apply is this function: an op delivered after a merged state that already holds a larger total for the '
+           'actor must not lower it, and a new total must be stored as the merge of the writer\'s state would',
 }, floor=1)
 def vc_apply(ctx):
     """VClock::apply stores dot.counter for dot.actor: must under get(actor) < counter, never under get(actor) > counter
